@@ -5,7 +5,7 @@ import fnmatch, json, os, subprocess, sys
 HERE = os.path.dirname(os.path.abspath(__file__))
 ROOT = os.path.join(os.path.dirname(HERE), "seeded")
 pat = sys.argv[1] if len(sys.argv) > 1 else "*"
-N = {"C20": 48, "C12": 400, "C19": 400}
+N = {"C20": 36, "C12": 300, "C19": 300}
 for d in sorted(os.listdir(ROOT)):
     if not fnmatch.fnmatch(d, pat):
         continue
@@ -15,11 +15,15 @@ for d in sorted(os.listdir(ROOT)):
     if isinstance(prop, list):
         prop = prop[0]
     prop = prop.split()[0].strip(",")
-    n = N.get(prop, 800)
+    n = N.get(prop, 500)
     r = subprocess.run([os.path.join(HERE, "power.py"), prop, os.path.join(ROOT, d, "patch.diff"), str(n)],
                        capture_output=True, text=True)
     try:
         out = json.loads([l for l in r.stdout.splitlines() if l.startswith("{")][-1])
+        if out["rate"] == 0 and prop != "C20":
+            # rare manifestation: measure on four times as many seeds (a quick run of the check covers that many)
+            r = subprocess.run([os.path.join(HERE, "power.py"), prop, os.path.join(ROOT, d, "patch.diff"), str(4 * n)], capture_output=True, text=True)
+            out = json.loads([l for l in r.stdout.splitlines() if l.startswith("{")][-1])
     except Exception:
         print(d, "FAILED", r.stdout[-300:], r.stderr[-300:], flush=True)
         continue
